@@ -182,3 +182,78 @@ func runC18rf(seed int64, count int) {
 		ch.Close(nil)
 	}
 }
+
+// C18, capacity and patience, sequentially and in real time:
+//  - qfill: a non-blocking channel of capacity q with a stalled sender accepts exactly q payloads, the next one is
+//    refused with the queue-full error (whatever q is, also far above the sizes normally used);
+//  - park: in blocking mode a write that finds the queue full stays parked for as long as the sender is stalled
+//    (observed for `wait`), and is accepted and transmitted once the sender runs.
+func runC18cap(seed int64, wait time.Duration) {
+	for _, q := range []int{1, 3, 64, 1024, 1025, 1500, 4000} {
+		emit("#case c18qfill-%d", q)
+		pl := netty.NewPipeline()
+		tr := mock.NewTransport()
+		dexec := &deferExec{}
+		ch := netty.NewAsyncWriteChannel(q, false)(int64(q), context.Background(), pl, tr, dexec)
+		netty.NvAttach(pl, ch)
+		accepted, cls := 0, "nil"
+		for i := 0; i < q+1; i++ {
+			if _, err := ch.Write1([]byte{byte(i)}); err != nil {
+				cls = "other"
+				if errors.Is(err, netty.ErrAsyncNoSpace) {
+					cls = "nospace"
+				}
+				break
+			}
+			accepted++
+		}
+		emit("C18 qfill q=%d accepted=%d err=%s", q, accepted, cls)
+		ch.Close(nil)
+	}
+	emit("#case c18park")
+	pl := netty.NewPipeline()
+	tr := mock.NewTransport()
+	dexec := &deferExec{}
+	ch := netty.NewAsyncWriteChannel(1, true)(1, context.Background(), pl, tr, dexec)
+	netty.NvAttach(pl, ch)
+	ch.Write1([]byte("A")) // fills the queue; the sender is not run
+	type res struct {
+		n   int
+		err error
+	}
+	out := make(chan res, 2)
+	go func() { n, err := ch.Write1([]byte("B")); out <- res{n, err} }()
+	go func() { n, err := ch.Writev([][]byte{[]byte("C"), []byte("D")}); out <- res{int(n), err} }()
+	early := 0
+	timer := time.After(wait)
+wait:
+	for {
+		select {
+		case <-out:
+			early++
+		case <-timer:
+			break wait
+		}
+	}
+	// now let the sender run until both parked writes are through
+	late, errs := 0, 0
+	deadline := time.Now().Add(3 * time.Second)
+	for late+early < 2 && time.Now().Before(deadline) {
+		dexec.runAll()
+		select {
+		case r := <-out:
+			late++
+			if r.err != nil {
+				errs++
+			}
+		case <-time.After(2 * time.Millisecond):
+		}
+	}
+	dexec.runAll()
+	for (netty.NvQueueLen(ch) > 0 || netty.NvSenderRunning(ch)) && time.Now().Before(deadline) {
+		dexec.runAll()
+		time.Sleep(100 * time.Microsecond)
+	}
+	emit("C18 park wait=%d early=%d late=%d errs=%d wirelen=%d", int(wait/time.Millisecond), early, late, errs, len(tr.Written()))
+	ch.Close(nil)
+}
